@@ -1,4 +1,4 @@
-import ArcSwapModel.Inv.Own
+import ArcSwapModel.Inv.ListInv
 import ArcSwapModel.Tie.ListNodeGet
 import ArcSwapModel.Tie.ListCheckCooldown
 import ArcSwapModel.Tie.ListStartCooldown
@@ -85,6 +85,31 @@ recorded as the known finding `writer-lockstep-node-get`.  What is enforced on e
 the conditional statement: a `Node::get` that never observed a writer inside a node in cooldown
 allocates only when every node was in use.
 -/
+
+/-! ## The list itself (`Inv/ListInv.lean`) -/
+
+/-- **the bookkeeping is a list, in every reachable state**: `LIST_HEAD` and the `next` pointers form
+    a chain without repetition over nodes that exist, and no thread's allocated-but-unlinked node
+    is on it -/
+theorem C11_nodes_form_a_list {st : State} (h : Reachable st) : ∃ L, ListInv st L :=
+  ListInv.reachable h
+
+/-- **prepend-only**: along any continuation of any execution the list only grows at the front: a
+    node once linked stays linked, behind the same successors, whoever owns it and however often it
+    is released and re-claimed -/
+theorem C11_list_prepend_only {st : State} {L : List Nat} (h : ListInv st L) (ho : OwnInv st)
+    (sched : List (Nat × Bool)) : ∃ pre, ListInv (run st sched) (pre ++ L) :=
+  h.run ho sched
+
+/-- one step of any thread leaves the list alone or prepends one node -/
+theorem C11_step_prepends_at_most_one {st : State} {L : List Nat} (h : ListInv st L) (ho : OwnInv st) (t : Nat) (b : Bool) :
+    ListInv (microStep st t b).1 L ∨ ∃ k, k ∉ L ∧ ListInv (microStep st t b).1 (k :: L) :=
+  h.step ho t b
+
+/-- the list is acyclic and no longer than the number of nodes ever named -/
+theorem C11_list_acyclic_and_bounded {st : State} {L : List Nat} (h : ListInv st L) :
+    L.Nodup ∧ L.length ≤ st.sh.nNodes :=
+  ⟨chainFrom_nodup h.1, h.length_le⟩
 
 example : (State.initial {} (fun _ => [])).sh.nNodes = 0 := rfl
 
